@@ -127,11 +127,12 @@ impl<A, B> Clone for ArcUnion<A, B> {
 impl<A, B> Drop for ArcUnion<A, B> {
     fn drop(&mut self) {
         match self.borrow() {
+            // the pointer the borrow carries, not one derived from a `&T` (which has no provenance over the count)
             ArcUnionBorrow::First(x) => unsafe {
-                let _ = Arc::from_raw(&*x);
+                let _ = Arc::from_raw(x.0.as_ptr());
             },
             ArcUnionBorrow::Second(x) => unsafe {
-                let _ = Arc::from_raw(&*x);
+                let _ = Arc::from_raw(x.0.as_ptr());
             },
         }
     }
